@@ -5,7 +5,7 @@ From Coq.Strings Require Import Byte.
 From L3 Require Import Paged.
 Import ListNotations.
 
-Theorem c16 : forall (fx : bool) (params : nat) (user_ctrls : list ctl) (size : N) (p : page) (rest : list page) (s0 : stream), start params user_ctrls size (p :: rest) = Some s0 -> wf_script (p_result p) rest -> exists s' : stream, drain fx (S (length (flat_map p_items (p :: rest)) + length (p :: rest))) s0 = (flat_map p_items (p :: rest), s') /\ st s' = Done /\ res s' = Some (final_of (last_result (p_result p) rest)) /\ wire s' = {| q_params := params; q_ctrls := user_ctrls ++ [CPaged size []] |} :: followups params user_ctrls size (p_result p) rest.
+Theorem c16 : forall (fx : pfix) (params : nat) (user_ctrls : list ctl) (size : N) (p : page) (rest : list page) (s0 : stream), start params user_ctrls size (p :: rest) = Some s0 -> wf_script (p_result p) rest -> exists s' : stream, drain fx (S (length (flat_map p_items (p :: rest)) + length (p :: rest))) s0 = (flat_map p_items (p :: rest), s') /\ st s' = Done /\ res s' = Some (final_of (last_result (p_result p) rest)) /\ wire s' = {| q_params := params; q_ctrls := user_ctrls ++ [CPaged size []] |} :: followups params user_ctrls size (p_result p) rest.
 Proof. exact Paged.c16. Qed.
 
 Theorem c16_rejects_caller_paging_control : forall (params : nat) (uc : list ctl) (size : N) (srv : list page), existsb is_paged uc = true -> start params uc size srv = None.
@@ -15,7 +15,7 @@ Theorem c16_final_has_no_paging : forall r : result, (forall c1 c2 : ctl, In c1 
 Proof. exact Paged.final_has_no_paging. Qed.
 
 (* chained behind EntriesOnly (adapters = [EntriesOnly, PagedResults]): exactly the entries of all pages, in order, each once; the reference tokens of all pages collected in order (EntriesOnly adds their URIs to the final result); the stream Done with the last page's result without the paging control; the same requests on the wire *)
-Theorem c16_behind_entries_only : forall (fx : bool) (params : nat) (user_ctrls : list ctl) (size : N) (p : page) (rest : list page) (s0 : stream),
+Theorem c16_behind_entries_only : forall (fx : pfix) (params : nat) (user_ctrls : list ctl) (size : N) (p : page) (rest : list page) (s0 : stream),
   start params user_ctrls size (p :: rest) = Some s0 -> wf_script (p_result p) rest ->
   exists s' : stream, eo_drain fx (S (length (flat_map p_items (p :: rest)) + length (p :: rest))) s0 [] =
       (entries_of (flat_map p_items (p :: rest)), refs_of (flat_map p_items (p :: rest)), s') /\
